@@ -563,7 +563,7 @@ REWRITE_RULES = {
     ],
     'R21': [
         # a datatype constructor used as a function value (unsupported by Verus) -> the closure it abbreviates
-        (re.compile(r'\.map\(Some\)'), r'.map(|verif_v| Some(verif_v))'),
+        (re.compile(r'\.map\(Some\)'), r'.map(|verif_v| -> (verif_o: Option<_>) ensures verif_o == Some(verif_v) { Some(verif_v) })'),
     ],
     'R22': [
         # ToOwned::to_owned of the DEFAULT value constant has no vstd specification: trusted wrapper with the same body
